@@ -15,7 +15,9 @@ git apply -R $D/patch.diff      # (git stash is shared between worktrees: not us
 echo "== demo without the change (must pass)"; cargo test --offline $FEAT --test demo_mutant > $D/demo_without.log 2>&1; WITHOUT=$?; echo rc=$WITHOUT
 git apply $D/patch.diff
 cd /verif
-git -C /repo apply $D/patch.diff && { ./check $PID > $D/check_output.txt 2>&1; CHK=$?; } ; git -C /repo checkout -- . ; git -C /repo status --short | head -3
+cp evidence/$PID.json /tmp/evidence-$PID.keep 2>/dev/null   # the evidence file must describe the unchanged tree
+git -C /repo apply $D/patch.diff && { ./check $PID > $D/check_output.txt 2>&1; CHK=$?; } ; git -C /repo checkout -- .
+cp /tmp/evidence-$PID.keep evidence/$PID.json 2>/dev/null; rm -f /tmp/evidence-$PID.keep ; git -C /repo status --short | head -3
 echo "check rc=$CHK"; grep -E "^VIOLATION|^KNOWN" $D/check_output.txt | head -5
 python3 - <<PY
 import json
